@@ -645,7 +645,7 @@ impl XmlNode {
             XmlNode::EntityReference(v) => v.inner().order(),
             XmlNode::Namespace(v) => v.namespace.borrow().order(),
             XmlNode::Notation(_) => 0,
-            XmlNode::PI(_) => 0,
+            XmlNode::PI(v) => v.pi.borrow().order(),
             XmlNode::ExpandedText(v) => v.data[0].order(),
             XmlNode::Text(v) => v.data.borrow().order(),
         }
@@ -665,7 +665,7 @@ impl XmlNode {
         children
             .iter()
             .rev()
-            .skip_while(|&v| v.order() != node.order())
+            .skip_while(|&v| v.id() != node.id())
             .nth(1)
             .cloned()
     }
@@ -683,7 +683,7 @@ impl XmlNode {
 
         children
             .iter()
-            .skip_while(|&v| v.order() != node.order())
+            .skip_while(|&v| v.id() != node.id())
             .nth(1)
             .cloned()
     }
